@@ -80,7 +80,7 @@ func specMs(d time.Duration) float64 { return ConvertDurationToMs(d) }
 
 //@ func TracerouteSerial
 //@ safety C03 C04 C05
-//@ modifies ghost clock, ghost sendN, ghost sendLog, ghost sendClock
+//@ modifies *, ghost clock, ghost sendN, ghost sendLog, ghost sendClock
 //@ ghost sendN Int
 //@ ghost sendLog (Array Int Int)
 //@ ghost sendClock (Array Int Int)
@@ -111,7 +111,8 @@ func specMs(d time.Duration) float64 { return ConvertDurationToMs(d) }
 // transition rule of the merge (C07): the table depends on the accepted replies only through this rule.
 
 //@ func TracerouteParallel
-//@ safety C03 C04 C05
+//@ safety C03 C04 C05 C10
+//@ modifies *, ghost clock, ghost sendN, ghost sendLog, ghost sendClock
 //@ monitor resultsMu protects results
 //@ inv[C01.slot]            forall(k, 0, len(results), results[k] != nil ==> int(results[k].TTL) == k && int(p.MinTTL) <= k)
 //@ requires[pre.nonnil]       t != nil && ctx != nil
@@ -151,3 +152,14 @@ func specMs(d time.Duration) float64 { return ConvertDurationToMs(d) }
 //@ ensures[C14.unlocked]      !held(resultsMu)
 //@ modifies elemtype(*ProbeResponse), resultsMu, ghost clock
 //@ loop 1 invariant[unlocked] !held(resultsMu)
+
+// ---- C10: local address discovery opens one UDP socket and hands it to the caller, or fails leaving nothing open
+
+//@ func LocalAddrForHost
+//@ safety C10
+//@ ensures[C10.laddr.atom]   ret2 != nil ==> ret0 == nil && ret1 == nil
+//@ ensures[C10.laddr.ok]     ret2 == nil ==> ret0 != nil && ret1 != nil && selb(isOpen, ref(ret1)) && !old(selb(isOpen, ref(ret1)))
+//@ ensures[C10.laddr.noleak] forallint(h, (ret2 != nil || h != ref(ret1)) && !old(selb(isOpen, h)) ==> !selb(isOpen, h))
+//@ ensures[C10.laddr.others] forallint(h, old(selb(isOpen, h)) ==> selb(isOpen, h) && sel(closeN, h) == old(sel(closeN, h)))
+//@ ensures[C10.laddr.wrap]   ret2 != nil ==> noRepoErr(ret2)
+//@ modifies ghost isOpen, ghost closeN, ghost clock
